@@ -98,6 +98,23 @@ func c11ListsU() []GOp {
 	return out
 }
 
+// c11UniverseP: names whose last component starts or ends with a character that file-system tools treat
+// specially (hidden files, editor and NFS scratch files, shell metacharacters): to the API they are names like
+// any other.
+var c11UniverseP = []string{".config", "a/.keep", ".a/x", "~t", "a/~x", "a/x~", "#h", "_u"}
+
+func c11ListsP() []GOp {
+	var out []GOp
+	for _, p := range []string{"", "a/", "."} {
+		for _, d := range []string{"", "/", "."} {
+			for _, mx := range []string{"1", "2", ""} {
+				out = append(out, GOp{Kind: "List", Bucket: "b", Prefix: p, Delim: d, MaxRes: mx})
+			}
+		}
+	}
+	return out
+}
+
 func runC11(c *fw.Ctx) {
 	var item int64
 	if c.Thorough() {
@@ -106,6 +123,7 @@ func runC11(c *fw.Ctx) {
 	}
 	c11Run(c, &item, c11Universe, c11Lists())
 	c11Run(c, &item, c11UniverseU, c11ListsU())
+	c11Run(c, &item, c11UniverseP, c11ListsP())
 	// a bucket larger than the default page size (1000): default paging, page sizes around it
 	var big []string
 	for i := 0; i < 1003; i++ {
@@ -142,6 +160,7 @@ func runC11(c *fw.Ctx) {
 	c.Bound("long_names_max_len", 1024)
 	c.Bound("universe", c11Universe)
 	c.Bound("universe_unicode", fmt.Sprintf("%+q", c11UniverseU))
+	c.Bound("universe_punctuation", c11UniverseP)
 	c.Bound("list_requests_per_bucket", len(c11Lists()))
 	c.Bound("list_requests_per_bucket_unicode", len(c11ListsU()))
 }
